@@ -59,6 +59,9 @@ def documented_layout(shelf_rows, shelf_columns, column_height):
 
 class M(Model):
     ENV = "RobotWarehouse"
+    # "The episode terminates if two agents collide": a conflict between two robots ends the episode, it never
+    # cancels one robot's (masked-in) move - every masked-in action of a joint action is carried out
+    JOINT_REACTION = True
     EPISODE_CAP = 520
 
     def __init__(self, b):
